@@ -26,6 +26,7 @@ package ro
 
 //@ func (*observerImpl).NextWithContext
 //@   props C01 C07
+//@   binds o ctx value
 //@   panicforks
 //@   inline (*observerImpl).tryNext (*observerImpl).tryError
 //@   track callfn.* hook.* call.NewNotification*
@@ -39,6 +40,7 @@ package ro
 
 //@ func (*observerImpl).ErrorWithContext
 //@   props C01 C07
+//@   binds o ctx err
 //@   panicforks
 //@   inline (*observerImpl).tryError
 //@   track callfn.* hook.* call.NewNotification*
@@ -50,6 +52,7 @@ package ro
 
 //@ func (*observerImpl).CompleteWithContext
 //@   props C01 C07
+//@   binds o ctx
 //@   panicforks
 //@   inline (*observerImpl).tryComplete
 //@   track callfn.* hook.* call.NewNotification*
@@ -87,6 +90,7 @@ package ro
 
 //@ func (*subscriberImpl).NextWithContext
 //@   props C01 C02 C06 C08
+//@   binds s ctx v
 //@   track destination.* hook.* call.NewNotification* Subscription.* spawn.*
 //@   ensures [nil-destination-silent|C01] s.destination == nil ==> trace()
 //@   ensures [block-mode-waits|C08] s.backpressure != 1 ==> !tried(mu)
@@ -96,6 +100,7 @@ package ro
 
 //@ func (*subscriberImpl).ErrorWithContext
 //@   props C01 C02 C03 C06 C14 C07
+//@   binds s ctx err
 //@   inline (*subscriberImpl).unsubscribe
 //@   track destination.* hook.* call.NewNotification* Subscription.* spawn.*
 //@   ensures [winner-delivers-then-tears-down|C01,C03,C06,C14] cas_ok(status) && s.destination != nil ==> trace(destination.ErrorWithContext(ctx, err), Subscription.Unsubscribe())
@@ -107,6 +112,7 @@ package ro
 
 //@ func (*subscriberImpl).CompleteWithContext
 //@   props C01 C02 C03 C06 C14
+//@   binds s ctx
 //@   inline (*subscriberImpl).unsubscribe
 //@   track destination.* hook.* call.NewNotification* Subscription.* spawn.*
 //@   ensures [winner-delivers-then-tears-down|C01,C03,C06,C14] cas_ok(status) && s.destination != nil ==> trace(destination.CompleteWithContext(ctx), Subscription.Unsubscribe())
@@ -118,6 +124,7 @@ package ro
 
 //@ func (*subscriberImpl).Unsubscribe
 //@   props C03 C06 C14
+//@   binds s
 //@   inline (*subscriberImpl).unsubscribe
 //@   track destination.* hook.* Subscription.* lock.* trylock.* spawn.*
 //@   ensures [cut|C06] s.status != 0
@@ -148,6 +155,7 @@ package ro
 
 //@ func NewSubscription
 //@   props C03
+//@   binds teardown
 //@   modular
 //@   ensures [never-nil|C03] result != nil
 //@   ensures [starts-open|C03] result.done == false
@@ -156,6 +164,7 @@ package ro
 
 //@ func (*subscriptionImpl).Add
 //@   props C03 C06 C14 C07
+//@   binds teardown
 //@   panicforks
 //@   maypanic
 //@   track callfn.*
@@ -166,6 +175,7 @@ package ro
 
 //@ func (*subscriptionImpl).AddUnsubscribable
 //@   props C03 C14
+//@   binds s unsubscribable
 //@   maypanic
 //@   track call.* callfn.*
 //@   ensures [nil-is-noop|C03] unsubscribable == nil ==> trace()
@@ -190,6 +200,7 @@ package ro
 
 //@ func execFinalizer
 //@   props C03 C07
+//@   binds finalizer
 //@   panicforks
 //@   track callfn.*
 //@   ensures [runs-once|C03] trace(callfn.finalizer())
@@ -202,12 +213,14 @@ package ro
 
 //@ func (*subscriptionImpl).Wait
 //@   props C06
+//@   binds s
 //@   maypanic
 //@   track chmake chrecv.* chclose.* chsend.* call.*
 //@   ensures [waits-for-own-finalizer|C06] trace(chmake(1), call.subscriptionImpl.Add(s, _), chrecv.ch, chclose.ch)
 
 //@ func (*subscriptionImpl).Wait$1
 //@   props C06
+//@   binds ch
 //@   track chmake chrecv.* chclose.* chsend.*
 //@   ensures [signals-once|C06] trace(chsend.ch)
 
@@ -217,6 +230,7 @@ package ro
 
 //@ func newSubscriberImpl
 //@   props C01 C02 C03
+//@   binds mode mu backpressure destination
 //@   maypanic
 //@   track destination.* call.NewSubscription
 //@   ensures [reuse-only-if-it-synchronises-as-much|C02] result == destination ==> mode == 1 || !is_psubscriberImpl_T_(destination) || asserted(destination).mode == mode || asserted(destination).mode == 0
@@ -225,6 +239,7 @@ package ro
 
 //@ func NewSubscriberWithConcurrencyMode
 //@   props C02
+//@   binds destination mode
 //@   maypanic
 //@   track call.*
 //@   ensures [safe-mode-gets-a-real-lock|C02] mode == 0 ==> trace(call.NewMutexWithLock(), call.newSubscriberImpl(mode, res(call.NewMutexWithLock), 0, destination))
@@ -234,6 +249,7 @@ package ro
 
 //@ func (*observableImpl).SubscribeWithContext
 //@   props C01 C02 C03 C07 C14
+//@   binds s ctx destination
 //@   panicforks
 //@   track call.NewSubscriberWithConcurrencyMode callfn.subscribe subscription.*
 //@   ensures [destination-is-wrapped-in-a-gate-of-the-observable-mode|C01,C02] arg(call.NewSubscriberWithConcurrencyMode, 0) == destination && arg(call.NewSubscriberWithConcurrencyMode, 1) == s.mode
